@@ -49,14 +49,18 @@ def _stim(rnd):
     ext = lambda t, y=0: {'t': t, 'yields': y, 'op': 'ext', 'dest': rnd.choice(dests), 'shape': _shape(rnd)}
     actions = [ext(0, 0), ext(0, rnd.randint(1, 3)), ext(rnd.randint(1, 4)), ext(6), ext(8)]
     tstop = rnd.choice([2, 7, 9])
-    causes = ['abort', 'abort', 'shutdown_bg', 'shutdown_bg']
+    causes = ['abort', 'abort', 'shutdown_bg', 'shutdown_bg', 'cbfault', 'cbfault']
     if api == 'run':
         causes += ['sigterm']
     trig = [i for i, b in enumerate(blocks, 1) if b['kind'] == 'trig']
     if trig:
         causes += ['ctrl']
     c = rnd.choice(causes)
-    if c == 'abort':
+    if c == 'cbfault':
+        # the simulation ends because of an error raised inside the simulation task itself
+        blocks.append({'kind': 'cb', 'trigger': 666, 'fault': 'eval'})
+        actions.append({'t': tstop, 'yields': 1, 'op': 'hit', 'dest': len(blocks)})
+    elif c == 'abort':
         actions.append({'t': tstop, 'yields': 1, 'op': 'abort', 'code': 906})
     elif c == 'shutdown_bg':
         actions.append({'t': tstop, 'yields': 1, 'op': 'shutdown_bg'})
@@ -70,6 +74,7 @@ def _stim(rnd):
     # keep the stop request before the sends of the same step
     actions.sort(key=lambda a: (a['t'], a.get('yields', 0), 0 if a['op'] != 'ext' else 1))
     s = {'check': 'C14', 'api': api, 'blocks': blocks, 'actions': actions, 'pre_abort': False, 'linger': 24,
+         'pre_finalize': rnd.random() < 0.3,
          'pre_ops': [{'dest': rnd.choice(dests), 'shape': _shape(rnd)}],
          'post_ops': [{'dest': rnd.choice(dests), 'shape': _shape(rnd)}]}
     if rnd.random() < 0.3:
